@@ -5,9 +5,9 @@
     [LSub x l] for an input [ISub k l] whose automaton accepts the language of [x].  [rsim s S]:
     whatever the automaton accepts from [s] is denoted by a residual in [S] through [lrel], and
     whatever a residual in [S] denotes is accepted from [s] through [lrel].  It holds initially by
-    C02 and [SubBridge.sbridge] ([rsim_start]); a transition preserves it ([rsim_step]) provided a
-    leaf stands for at most one input of the pool ([lrel_fun]: no two within-word automata with the
-    same language under the same level). *)
+    C02 and [SubBridge.sbridge] ([rsim_start]); a transition preserves it ([rsim_step]) provided the
+    inputs a leaf stands for lead, from one state, to one state ([lrel_det]: two within-word
+    automata with the same language under the same level are not alternatives at a state). *)
 From CG Require Import Base.Prelude Model.Ast Model.Dfa Spec.Lang Spec.Rx Spec.Meaning Spec.DfaEquiv.
 From CG Require Import Proofs.RxFacts Proofs.MeaningFacts Proofs.TablesSound Proofs.LangBridge Proofs.DfaMeaning
      Proofs.DomainFacts Proofs.SimGen Proofs.SubBridge.
@@ -36,8 +36,8 @@ Section RSim.
     - intros [k [-> H]]. cbn [item_of_inp item_equiv]. split; [reflexivity | exact H].
   Qed.
 
-  (** a leaf stands for at most one input of the pool *)
-  Hypothesis lrel_fun : forall a x x', lrel a x -> lrel a x' -> In x (d_inputs d) -> In x' (d_inputs d) -> x = x'.
+  (** the inputs a leaf stands for lead, from one state, to one state *)
+  Hypothesis lrel_det : forall s a x x' t t', lrel a x -> lrel a x' -> trans_on d s x t -> trans_on d s x' t' -> t = t'.
 
   Definition rsim (s : N) (S : state) : Prop :=
     (forall xs, dacc d s xs -> exists k ls, In k S /\ denotes k ls /\ Forall2 lrel ls xs)
@@ -65,8 +65,7 @@ Section RSim.
       destruct (H2 k _ Hk Hden') as [xs0 [Hf Hd]].
       inversion Hf as [| a' x0 ls' xs Hax0 Hf']; subst.
       apply dacc_cons in Hd. destruct Hd as [j [t' [Es' [Hj Hd']]]].
-      assert (x0 = x) by (apply (lrel_fun a x0 x Hax0 Ha); eapply nthN_In; eassumption). subst x0.
-      rewrite (nthN_inj d Hinputs j i x Hj Hi) in Es'. rewrite Es in Es'. inversion Es'; subst t'.
+      assert (t' = t) by (apply (lrel_det s a x0 x t' t Hax0 Ha); [exists j | exists i]; split; assumption). subst t'.
       exists xs. split; assumption.
   Qed.
 
